@@ -69,7 +69,8 @@ class R:
 def resolve(n, stage=0, inh_prio=None, inh_del=None, inh_new=None):
     """abstract node -> R with effective priority / delete / allow-new"""
     t = n['t']
-    prio = n.get('prio') if n.get('prio') is not None else inh_prio
+    # "a priority tag on a container applies to everything below it": the outermost tag wins
+    prio = inh_prio if inh_prio is not None else n.get('prio')
     xdel = True if n.get('vdel') else n.get('del')
     if t == 'sp':
         kind = {'required': 'req', 'clear': 'clear'}.get(n['kind'])
@@ -303,7 +304,7 @@ def writers(docs):
     out = {}
 
     def rec(n, path, stage, inh):
-        prio = n.get('prio') if n.get('prio') is not None else inh
+        prio = inh if inh is not None else n.get('prio')
         if n['t'] == 'map':
             out.setdefault(path, []).append(('map', prio if prio is not None else S, stage, None, dict(n.get('md') or {})))
             for k, c in n['items']:
